@@ -526,6 +526,18 @@ impl ArtefactMedium {
                 }
             }
             "pubkey_hash" => (rng.bytes(20), vec![]),
+            "sig_der" | "sig_der_hex" | "sighash_sig" if rng.chance(1, 6) => {
+                // TLV boundary shapes: the outer length and the first integer's length are placed so that the first integer
+                // ends at / just before / just past the end of the buffer, and the last byte is a tag or a flag value
+                let l = rng.range(8, 74) as usize;
+                let mut d = rng.bytes(l);
+                d[0] = 0x30;
+                d[1] = (l as i64 - 2 - rng.range(0, 2) as i64 + if rng.chance(1, 5) { 1 } else { 0 }).clamp(0, 255) as u8;
+                d[2] = 0x02;
+                d[3] = (l as i64 - 5 + rng.range(0, 4) as i64 - 2).clamp(0, 255) as u8;
+                d[l - 1] = *rng.pick(&[0x02u8, 0x30, 0x00, 0x01, 0x41, 0x02]);
+                (d, vec![1, 3])
+            }
             "sig_der" | "sig_der_hex" | "sighash_sig" if rng.chance(1, 4) => {
                 // hand-made DER: integer length bytes 0 / 1 / 0x20 / 0x21 / 0x22 with matching or mismatching content,
                 // leading zeros, high bits, wrong outer length
@@ -645,6 +657,25 @@ fn apply_fault(data: &mut Vec<u8>, f: &Value) -> bool {
             }
             data[p] = ju64(f, "val") as u8;
             true
+        }
+        "len_to_end" => {
+            // a one-byte length field is made to reach exactly to the end of the buffer, or a few bytes short of / past it
+            let p = jusize(f, "pos");
+            if p >= data.len() {
+                return false;
+            }
+            let v = data.len() as i64 - p as i64 - 1 - ju64(f, "short") as i64 + ju64(f, "past") as i64;
+            data[p] = v.clamp(0, 255) as u8;
+            true
+        }
+        "set_last" => {
+            match data.last_mut() {
+                Some(b) => {
+                    *b = ju64(f, "val") as u8;
+                    true
+                }
+                None => false,
+            }
         }
         "inflate" => {
             // overwrite the bytes at pos with a length pattern (the field grows or shrinks in place)
@@ -843,6 +874,12 @@ impl Scenario for ArtefactMedium {
                 json!({"f": "json_value", "k": rng.below(12), "with": *rng.pick(&["1", "-1", "0", "1e400", "18446744073709551616", "4294967296", "null", "true", "[]", "{}", "\"\"", "\"zz\"", "\"00\"", "\"aaaaaaaaaaaaaaaaaaaaaaaaaaaaaaaaaaaaaaaaaaaaaaaaaaaaaaaaaaaaaaa\"", "\"aaaaaaaaaaaaaaaaaaaaaaaaaaaaaaaaaaaaaaaaaaaaaaaaaaaaaaaaaaaaaaaaa\"", "\"0\"", "\"abc\"", "[1,2,3]", "{\"a\":1}", "1.5", "\"\u{e9}\u{20ac}\"", "\"0\u{e9}1\"", "\"\u{20ac}0\"", "\"z\u{e9}0\"", "\"00\u{e9}\"", "\"0\\u00e91\"", "99999999999999999999999999999999999999"])})
             } else if token_kind && rng.chance(1, 2) {
                 json!({"f": "token", "k": rng.below(16), "insert": rng.chance(1, 2), "with": *rng.pick(&["", "", "OP_PUSH", "OP_PUSHDATA1", "OP_PUSHDATA2", "OP_PUSHDATA4", "OP_PUSH 4294967295 00", "OP_PUSHDATA4 4294967296 00", "OP_PUSHDATA4 1073741824 00", "OP_PUSHDATA4 4294967295 00", "OP_PUSHDATA2 65535 00", "OP_PUSHDATA1 255 00", "OP_PUSH 75 00", "OP_PUSH 0 ", "OP_DATA20=", "OP_DATA==5", "OP_DATA=4294967296", "OP_DATA>=18446744073709551616", "OP_DATA<", "OP_DATA=", "OP_DATA=-1", "OP_DATA>", "0x", "zz", "é€", "a€", "OP_é", "17", "-1", "2147483648", "2147483647'", "4294967295", "4294967296", "2147483648h", "99999999999999999999", "'", "h", "/", "m", "m/", "0''", "OP_IF", "OP_ENDIF", "OP_ELSE", "\n", "\r", "\t"])})
+            } else if !offs.is_empty() && rng.chance(1, 8) {
+                if rng.chance(2, 3) {
+                    json!({"f": "len_to_end", "pos": *rng.pick(&offs), "short": rng.below(5), "past": if rng.chance(1, 6) { rng.range(1, 3) } else { 0 }})
+                } else {
+                    json!({"f": "set_last", "val": *rng.pick(&[0x02u64, 0x30, 0x00, 0x01, 0x41, 0xc3, 0xff, 0x80])})
+                }
             } else { match rng.weighted(&[22, 10, 6, 26, 8, 3, 6, 2, 3, 4, 3]) {
                 0 => json!({"f": "truncate", "k": if len > 0 { rng.usize(len) } else { 0 }}),
                 1 => json!({"f": "flip", "pos": if len > 0 { rng.usize(len) } else { 0 }, "bit": rng.below(8)}),
